@@ -182,16 +182,25 @@ def trailing_comment(value, comment_text):
     return _TrailingCommentedValue(value, comment_text)
 
 
+def _join_comments(outer, inner):
+    # A value wrapped in several comments of one kind keeps all of them.
+    if not outer:
+        return inner
+    if not inner:
+        return outer
+    return outer + '\n' + inner
+
+
 def unwrap_comments(value):
     comment = None
     trailing_comment = None
 
     while isinstance(value, (_CommentedValue, _TrailingCommentedValue)):
         if isinstance(value, _CommentedValue):
-            comment = value.comment
+            comment = _join_comments(comment, value.comment)
             value = value.value
         elif isinstance(value, _TrailingCommentedValue):
-            trailing_comment = value.comment
+            trailing_comment = _join_comments(trailing_comment, value.comment)
             value = value.value
 
     return (value, comment, trailing_comment)
